@@ -1,8 +1,8 @@
 package c18
 
 import (
-	"verif/harness/pbt"
 	"pgregory.net/rapid"
+	"verif/harness/pbt"
 )
 
 // ---- generators -------------------------------------------------------------------------
@@ -14,7 +14,7 @@ import (
 func genTuple(t *rapid.T, label string) Tuple {
 	tp := Tuple{
 		Endpoint: rapid.IntRange(0, 1).Draw(t, label+".ep"),
-		Header:   rapid.IntRange(0, 2).Draw(t, label+".hdr"),
+		Header:   genHeader(t, label+".hdr"),
 		SSE:      rapid.IntRange(0, 4).Draw(t, label+".sse") == 0,
 	}
 	if tp.SSE {
@@ -26,6 +26,11 @@ func genTuple(t *rapid.T, label string) Tuple {
 	return tp
 }
 
+// genHeader draws a header set; multi-valued sets are listed more than once (rapid favours neither).
+func genHeader(t *rapid.T, label string) int {
+	return rapid.SampledFrom([]int{0, 1, 2, 3, 3, 4, 5, 6, 7, 8, 9, 10, 11, 1, 3}).Draw(t, label)
+}
+
 // mutate changes exactly one coordinate of the key.
 func mutate(t *rapid.T, b Tuple, label string) Tuple {
 	m := b
@@ -34,7 +39,19 @@ func mutate(t *rapid.T, b Tuple, label string) Tuple {
 		case 0:
 			m.Endpoint = 1 - b.Endpoint
 		case 1:
-			m.Header = (b.Header + rapid.IntRange(1, 2).Draw(t, label+".dh")) % 3
+			// half of the time a header set that differs only where a sloppy key would not look: same keys,
+			// same first value under each key, a later value / the value count differs
+			var near []int
+			for h := range headerSets {
+				if sameFirstValues(b.Header, h) {
+					near = append(near, h)
+				}
+			}
+			if len(near) > 0 && rapid.Bool().Draw(t, label+".near") {
+				m.Header = rapid.SampledFrom(near).Draw(t, label+".dhnear")
+			} else {
+				m.Header = genHeader(t, label+".dh")
+			}
 		case 2:
 			if b.SSE {
 				m.Proto = 1 - b.Proto
@@ -205,12 +222,15 @@ func genStepped(t *rapid.T) Case {
 		if s.Op == "end" {
 			break
 		}
+		if s.Op == "cancel" && rapid.IntRange(0, 2).Draw(t, "bydeadline") == 0 {
+			s.Op = "expire" // the subscriber leaves because its own deadline passes, not because it cancels
+		}
 		c.Steps = append(c.Steps, s)
 		switch s.Op {
 		case "sub":
 			started[s.Sub] = true
 			returned[s.Sub] = open[c.Subs[s.Sub].Tuple] || precancelled[s.Sub]
-		case "cancel":
+		case "cancel", "expire":
 			cancelled[s.Sub] = true
 			if !started[s.Sub] {
 				precancelled[s.Sub] = true
@@ -260,6 +280,7 @@ func genBurst(t *rapid.T) Case {
 			kind = "" // a cancel during Subscribe next to same-tuple WebSocket subscribers is the known-finding class
 		}
 		s.Cancel = kind
+		s.Deadline = kind != "" && rapid.IntRange(0, 2).Draw(t, "b.bydeadline") == 0
 		switch kind {
 		case "race":
 			s.At = rapid.IntRange(0, 3).Draw(t, "b.yields")
